@@ -51,26 +51,29 @@ Print Assumptions C02_manifest_complete.
 
 (* Address.rel, partial: a reference denotes the type it was printed for as soon as its first name is bound, where it is
    evaluated, to what rel assumes (quoted references need nothing of the scope).  NOT proved: that the binding exists for
-   every protoc-valid schema — it does not, see the two refuted lemmas below. *)
+   every protoc-valid schema — it does not: C02_pb2_shadow_refuted. *)
 Theorem C02_rel_resolves_partial : forall api names tab ltypes locals globals self at_ k,
   head_bound api names tab ltypes locals globals self at_ k = true ->
   resolve tab (dotted (a_pkg at_)) ltypes locals globals (Some (kw_of k, rel api names self at_)) = Some (full_name self).
 Proof. exact rel_resolves_partial. Qed.
 Print Assumptions C02_rel_resolves_partial.
 
-(* refuted on the code as it is (each witness is a corpus entry replayed on the implementation) *)
-Theorem C02_rel_misfire_refuted :
-  forallb (wf_msg PK "main" "google.example.c02.v1" []) (fd_msgs (w_misfire false)) = true
-  /\ has_type "google.example.c02.v1.Foo.Bar" KMsg (flat_map (decl_types "google.example.c02.v1") (emit_file api0 (w_misfire false))) = true
-  /\ rel api0 [] (mkAddr PK "main" ["Foo"] "Bar") (mkAddr PK "main" ["X"] "Foo") = RX ["Bar"]
-  /\ file_ok api0 [] (w_misfire false) = false
-  /\ runtime_file [] (emit_header api0 (w_misfire false)) (emit_file api0 (w_misfire false)) = None
-  /\ forallb (wf_msg PK "main" "google.example.c02.v1" []) (fd_msgs (w_misfire true)) = true
-  /\ exists ms, runtime_file [] (emit_header api0 (w_misfire true)) (emit_file api0 (w_misfire true)) = Some ([], ms)
-                /\ map (view_rt "google.example.c02.v1") ms <> map (view_in PK "main" []) (fd_msgs (w_misfire true)).
-Proof. exact rel_misfire_refuted. Qed.
-Print Assumptions C02_rel_misfire_refuted.
+(* since 2f90e4e an unquoted same-file reference is printed only inside a top-level message, for a type nested in it *)
+Theorem C02_rel_unquoted_only_top_level : forall api names self at_ c,
+  rel api names self at_ = RX c ->
+  list_eqb String.eqb (a_pkg self) (a_pkg at_) && String.eqb (a_module self) (a_module at_) = true ->
+  a_parent at_ = [] /\ exists ptl, a_parent self = a_name at_ :: ptl /\ c = (ptl ++ [a_name self])%list.
+Proof. exact rel_RX_same_file. Qed.
+Print Assumptions C02_rel_unquoted_only_top_level.
 
+(* regression witness of the fixed finding C02-rel-nested-named-like-toplevel (also corpus/C02/rel-misfire*.json) *)
+Theorem C02_rel_nested_like_toplevel_ok :
+  rel api0 [] (mkAddr PK "main" ["Foo"] "Bar") (mkAddr PK "main" ["X"] "Foo") = RQ "Foo.Bar"
+  /\ file_ok api0 [] (w_misfire false) = true /\ file_ok api0 [] (w_misfire true) = true.
+Proof. exact rel_nested_like_toplevel_ok. Qed.
+Print Assumptions C02_rel_nested_like_toplevel_ok.
+
+(* refuted on the code as it is (the witness is a corpus entry replayed on the implementation; known finding) *)
 Theorem C02_pb2_shadow_refuted :
   map imp_local (h_imports (emit_header api0 (w_pb2 "B"))) = ["thing_pb2"; "thing_pb2"]
   /\ map imp_line (h_imports (emit_header api0 (w_pb2 "B"))) = ["from fab.baz import thing_pb2"; "from foo.bar import thing_pb2"]
